@@ -10,7 +10,7 @@ import json, os, re, shutil, subprocess, sys, tempfile, glob
 
 ID, I = sys.argv[1], sys.argv[2]
 tier = sys.argv[3] if len(sys.argv) > 3 else 'quick'
-src = f'/tmp/seed-{ID}'
+src = os.environ.get('SEED_SRC', f'/tmp/seed-{ID}')
 env = dict(os.environ, GOFLAGS='-mod=mod', GOPROXY='off', GOSUMDB='off', GOTOOLCHAIN='local')
 notes = json.load(open(f'{src}/notes{I}.json'))
 patch = f'{src}/patch{I}.diff'
@@ -30,7 +30,7 @@ def scratch(patched):
     return d
 
 def place_demo(d):
-    raw = notes.get('demo_cmd', '')
+    raw = notes.get('demo_cmd', '').replace('&&', ' ').replace(';', ' ')
     m = re.search(r'(go test [^()\n]*?\./([\w/]+?)/?)(\s|$)', raw)
     cmd = m.group(1) if m else raw
     pkg = m.group(2) if m else None
@@ -72,7 +72,7 @@ res['check_first_report'] = '\n'.join(p.stdout.splitlines()[:1] if not viol else
 res['caught'] = p.returncode == 1 and len(viol) > 0
 res['tier'] = tier
 shutil.rmtree(dp)
-out_dir = f'/verif/seeded/{ID}-{I}'
+out_dir = '/verif/seeded/' + os.environ.get('SEED_NAME', f'{ID}-{I}')
 os.makedirs(out_dir, exist_ok=True)
 shutil.copy(patch, out_dir + '/patch.diff')
 if os.path.isdir(out_dir + '/demo'):
